@@ -507,6 +507,14 @@ def cli_globals(repo, rel, fs, wmod, datasets, extra=None):
             repo.func("dclab/rtdc_dataset/load.py", "new_dataset"),
             lambda data, **k: _lookup(datasets, data)),
         "fmt_tdms": NS("fmt_tdms", NPTDMS_AVAILABLE=False),
+        # moving a file = renaming it (C10 judges the protocol)
+        "shutil": NS("shutil", move=lambda src, dst, **k: _as_path(
+            src, fs).rename(_as_path(dst, fs))),
+        "os": NS("os", rename=lambda src, dst, **k: _as_path(
+            src, fs).rename(_as_path(dst, fs)),
+            replace=lambda src, dst, **k: _as_path(
+                src, fs).rename(_as_path(dst, fs)),
+            fspath=lambda p: str(p)),
         "print": lambda *a, **k: None,
         "FeatureSetNotIdenticalJoinWarning": UserWarning,
     }
@@ -515,6 +523,10 @@ def cli_globals(repo, rel, fs, wmod, datasets, extra=None):
     if extra:
         mini.g.update(extra)
     return mini
+
+
+def _as_path(p, fs):
+    return p if isinstance(p, PathM) else PathM(str(p), fs)
 
 
 def _lookup(datasets, p):
@@ -1145,6 +1157,21 @@ def r93_r94(ctx, repo):
                        if oacc.get("order") or "uint64" in bad else ""),
            node=f,
            label="join order with fractional seconds")
+    # fractional seconds with 0 / 1 / 2 / 3 / 6 decimals are taken exactly
+    oacc = {}
+    decs = {"a": spec(tm="12:00:00"), "b": spec(tm="12:00:01.5"),
+            "c": spec(tm="12:00:02.25", fr=1000.),
+            "d": spec(tm="12:00:03.125", fr=8000.),
+            "e": spec(tm="12:00:04.123456", fr=1000000.)}
+    for order in (["a", "b", "c", "d", "e"], ["e", "d", "a"], ["d", "b"]):
+        merge(oacc, case(decs, order, ["order", "time", "frame"]))
+    bad = oacc.get("order") or oacc.get("time") or oacc.get("frame")
+    ctx.ob("R9.4", bad is None,
+           "fractional seconds of the start time (0, 1, 2, 3, 6 decimals) "
+           "enter the offsets exactly" if bad is None else
+           bad + " – the fraction of experiment:time is not parsed "
+           "completely", node=f,
+           label="join fraction of the start time exact")
     oacc = {}
     ties = {"x": spec(), "y": spec(), "z": spec(tm="12:00:03")}
     for order in (["y", "x"], ["x", "y"], ["z", "y", "x"]):
@@ -1317,7 +1344,7 @@ def run(ctx):
     ctx.rule("R9.3", "join: common features, continuous time / frame / "
              "index_online, pass-through, logs of every source", minimum=8)
     ctx.rule("R9.4", "join: chronological order for any given order, incl. "
-             "fractional seconds; ties keep the given order", minimum=3)
+             "fractional seconds; ties keep the given order", minimum=4)
     r91(ctx, repo)
     r92(ctx, repo)
     r93_r94(ctx, repo)
@@ -1668,3 +1695,13 @@ TWINS = list(TWINS) + [
        "            num_files = math.ceil(len(ds) / split_events)\n")]),
 ]
 
+
+MUTANTS = list(MUTANTS) + [
+    ("join: fraction of the start time cut to two decimals (seeded)", JOIN,
+     ("                t_offsets[ii] += float(etime[8:])",
+      "                t_offsets[ii] += float(etime[8:11])"), "R9.4"),
+    ("join: fraction of the start time parsed without its first digit",
+     JOIN,
+     ("                t_offsets[ii] += float(etime[8:])",
+      "                t_offsets[ii] += float(\"0.\" + etime[10:])"), "R9."),
+]
